@@ -164,7 +164,7 @@ JOBS['C06'] += [dynstep('dynstep_it_310', 1, 3, 1, 0, tiers=T, timeout=3000, mem
 JOBS['C15'] += [dynstep('dynstep_inv_322', 2, 3, 2, 2)]
 JOBS['C11'] = [mapped('mapped_u8_n2', 'uint8_t', 2), mapped('mapped_i8_n2', 'int8_t', 2), mapped('mapped_u8_n3_dense', 'uint8_t', 3, ord_hi=3), mapped('mapped_i8_n3', 'int8_t', 3, tiers=T, timeout=3000)]
 
-JOBS['C09'] = [bucketing('bucket_n2_t3', 2, 3), bucketing('bucket_n2_t4', 2, 4), bucketing('bucket_n3_t3', 3, 3), bucketing('bucket_n2_t4_dyn', 2, 4, topbits=0, tiers=T, timeout=3000, mem_gb=40), bucketing('bucket_n3_t4_dyn', 3, 4, topbits=0, tiers=T, timeout=3000), bucketing('bucket_n4_t6', 4, 6, tiers=T, timeout=4000)]
+JOBS['C09'] = [bucketing('bucket_n2_t3', 2, 3), bucketing('bucket_n2_t4', 2, 4), bucketing('bucket_n3_t3', 3, 3),   bucketing('bucket_n4_t6', 4, 6, tiers=T, timeout=4000)]
 EF_PROBE = [sdslidx('ef_u16_n1', 'eliasfano.cpp', 'u_eliasfano', 'uint16_t', 1, mem_gb=45, timeout=3600), sdslidx('ef_u16_n2', 'eliasfano.cpp', 'u_eliasfano', 'uint16_t', 2, mem_gb=45, timeout=3600, tiers=T)]
 SEG_JOBS = [seg('seg_' + k.replace('_t', ''), k) for k in ('int8_t', 'uint8_t')] + [seg('seg_i8_dbl', 'int8_t', 64)] + [seg('seg_' + k.replace('_t', ''), k, tiers=T, timeout=3000) for k in ('int16_t', 'uint16_t')]
 JOBS['C01'] += SEG_JOBS
@@ -176,7 +176,7 @@ JOBS['C20'] = [e2e('reject_u8_n%d' % n, 'uint8_t', n, 1, 1, extra=dict(ALLOW_SEN
               [e2e('reject_i8_n2', 'int8_t', 2, 1, 0, extra=dict(ALLOW_SENTINEL=1))]
 JOBS['C20'] += [pla('pla_reject_k3_e1', 3, epsfix=1, ymax=6, maximality=False, reject=True)]
 JOBS['C20'] += [dynrej('dynrej_base', 0), dynrej('dynrej_bulk', 1, 3), dynrej('dynrej_tomb', 2), dynrej('dynrej_range', 3)]
-JOBS['C18'] = [cpgm('cpgm_u32_n2', 'uint32_t', 'uint32', 2), cpgm('cpgm_i32_n2', 'int32_t', 'int32', 2), cpgm('cpgm_u64_n2_null', 'uint64_t', 'uint64', 2, sentinel=True),
+JOBS['C18'] = [cpgm('cpgm_u32_n2', 'uint32_t', 'uint32', 2), cpgm('cpgm_i32_n2', 'int32_t', 'int32', 2), cpgm('cpgm_u64_n2_null_e1', 'uint64_t', 'uint64', 2, epslo=1, ephi=1, spread=7, sentinel=True), cpgm('cpgm_u64_n2_null', 'uint64_t', 'uint64', 2, sentinel=True, tiers=T, timeout=3000),
                cpgm('cpgm_i64_n3', 'int64_t', 'int64', 3, tiers=T, timeout=3000), cpgm('cpgm_u32_n2_eps4096', 'uint32_t', 'uint32', 2, epslo=1, ephi=4096, tiers=T, timeout=3000)]
 
 E2E_OUT = ['n >= 5 keys end to end (n = 5 ran out of memory at 14 GB)', 'Epsilon > 1 and EpsilonRecursive > 1', 'key types wider than 8 bits end to end (C18 covers 32/64-bit keys at n <= 3 through the C interface)',
@@ -203,7 +203,7 @@ PROPS = {
                 explanation='Same container; traversal from begin() and from lower_bound(k), range(lo,hi), size(), empty() against the array map; one job per query group.'),
     'C07': dict(level='model_checking', outside=E2E_OUT + ['at n <= 4 upper levels hold one or two segments: a weak instance of the routing bound'], assumptions=MODEL,
                 explanation='The segment_for_key hook records the largest distance between the chosen segment and the predicted position; asserted <= EpsilonRecursive+1 in the e2e jobs with a recursive level.'),
-    'C09': dict(level='model_checking', outside=['n > 3 (quick) / 4 (thorough)', 'key types wider than 8 bits', 'Epsilon > 1', 'TopLevelSize other than 3, 4, 6', 'huge-page allocator paths of sdsl::memory_manager (asserted unreachable)'],
+    'C09': dict(level='model_checking', outside=['n > 3 (quick) / 4 (thorough)', 'key types wider than 8 bits', 'Epsilon > 1', 'TopLevelSize other than 3, 4, 6', 'TopLevelBitSize = 0 (dynamic cell width): the variable-width sdsl::int_vector<0> accessors ran out of memory at 40 GB for n = 2', 'huge-page allocator paths of sdsl::memory_manager (asserted unreachable)'],
                 assumptions=MODEL + ['sdsl::int_vector and sdsl::memory_manager::resize are the real code on malloc/realloc; sdsl::memory_monitor::record (accounting) has an empty body'],
                 explanation='Real BucketingPGMIndex constructor (segmentation, build_top_level writing the real sdsl::int_vector) and search(): same contract as C01/C02 plus the empty ranges at 0 and n outside [first,last].'),
     'C11': dict(level='model_checking', outside=['file/mmap layer (data pointer aimed at the array through the accessor hook)', 'n > 3', 'Epsilon > 1'], assumptions=MODEL,
